@@ -14,6 +14,8 @@ pub(crate) fn parse_step(bp: &mut BlockParser<'_, '_>) {
     bp.event(Event::Start(BlockKind::Step));
 
     while !bp.rest().is_empty() {
+        #[cfg(feature = "verif")]
+        crate::verif::tick("parse_step");
         let component = match bp.peek() {
             T![@] => bp.with_recover(ingredient),
             T![#] => bp.with_recover(cookware),
@@ -94,6 +96,8 @@ fn modifiers<'t>(bp: &mut BlockParser<'t, '_>) -> &'t [Token] {
 
     let start = bp.current;
     loop {
+        #[cfg(feature = "verif")]
+        crate::verif::tick("modifiers");
         match bp.peek() {
             T![@] | T![?] | T![+] | T![-] => {
                 bp.bump_any();
